@@ -224,7 +224,13 @@ func c08Put(w *hx.Writer, kr *keyring, rng *hx.Rng, vkey, vdealer int, vmembers 
 	}
 	w.Put(hx.Case{Entry: "vss", Op: 1,
 		Args: hx.L(hx.Z(BnQ), hx.Zi(1), hx.Zi(vkey), hx.Zi(vdealer), hx.Zi(indexOf(vmembers, vkey)), intsVal(vmembers), edv),
-		Impl: impl, Oracle: oracle, Tags: []string{tag, "nt"}})
+		Impl: impl, Oracle: oracle, Tags: []string{tag, "nt"},
+		Re: func() string {
+			if ed == nil {
+				return c08Run(kr, rng, vkey, vdealer, vmembers, nil)
+			}
+			return c08Run(kr, rng, vkey, vdealer, vmembers, cloneED(ed))
+		}})
 }
 
 func genC08(rng *hx.Rng, tier string, w *hx.Writer) error {
